@@ -123,6 +123,14 @@ def gen_rule(rng, dtstart, freq=None, big_times=False, numbered_limit=0.0, yearl
             r.byminute = _some0(rng, 0, 59, 60 if big_times else 3)
         if p() < (0.5 if big_times else 0.25):
             r.bysecond = _some0(rng, 0, 59, 60 if big_times else 3)
+    elif p() < 0.12:
+        # time parts next to a DATE value: to be ignored (RFC 5545, 3.3.10)
+        if p() < 0.4:
+            r.byhour = _some0(rng, 0, 23, 2)
+        if p() < 0.6:
+            r.byminute = _some0(rng, 0, 59, 3)
+        if p() < 0.5 or not (r.byhour or r.byminute):
+            r.bysecond = _some0(rng, 0, 59, 2)
     if freq in ("YEARLY", "MONTHLY", "WEEKLY", "DAILY") and p() < 0.2 and (r.byday or r.bymonthday or r.byyearday or r.byhour or r.bymonth):
         r.bysetpos = _some(rng, 1, 4, 2, neg=True)
     z = p()
